@@ -13,8 +13,16 @@
 //   lat:*    hand-written VolumeInput field lattice: zorder x bbox kind, and inside each unit
 //            flags x logic-token strings x labels, plus a daughter map with every transform type
 //            (structure-only: no navigation because such units are not consistent geometries)
+//            volume bbox kinds include half spaces; unit bbox kinds finite / unbounded along one
+//            axis / half space / infinite; lat:empty-logic,* = one volume with empty logic that is
+//            valid through implicit_vol
 //   ext:*    extreme doubles (denormal, -0.0, 1e+-300, 17 significant digits) in surface data,
-//            bboxes, grids, transforms, tolerances (structure-only)
+//            bboxes, grids, transforms, tolerances; array cells with tiny NON-zero translations
+//            (all components tiny / one tiny / denormal) next to exact and negative zero
+//            (structure-only)
+//   legacy:* literal JSON texts in the legacy spellings that only the reader knows (see
+//            problems/c19_legacy.hh): decoded by cmp_raw and compared with the reader's result,
+//            then round trip + navigation
 //
 // Oracles on every input:
 //   (a) a -> json -> dump() -> parse -> from_json -> b; own deep comparison of a and b on the
@@ -28,6 +36,9 @@
 //   (c) OrangeParams(a) and OrangeParams(b): same labels/ids/bbox/depth, and on a deterministic
 //       ray set (jittered lattice of start points in the world bbox x direction set) identical
 //       volume / surface / level sequences and bit-identical distances, positions and safeties.
+//   (e) families file, row, arr, legacy: the text stored as <tmp>/<name>.org.json and loaded with
+//       OrangeParams("<name>.org.json") / OrangeParams("<name>.gdml") (fallback without Geant4)
+//       navigates exactly like OrangeParams(a) (signatures "file-entry/...").
 #include <cmath>
 #include <cstring>
 #include <filesystem>
@@ -43,6 +54,7 @@
 #include <vector>
 #include <nlohmann/json.hpp>
 
+#include "corecel/Config.hh"
 #include "corecel/cont/Range.hh"
 #include "corecel/data/CollectionStateStore.hh"
 #include "corecel/io/Label.hh"
@@ -97,9 +109,10 @@ struct Reporter
 {
     vf::Run* R;
     std::string cid;
+    std::string prefix{};  // prepended to every signature (e.g. "file-entry/")
     void fail(std::string const& sig, std::string const& msg) const
     {
-        R->violation(sig, cid, msg);
+        R->violation(prefix + sig, cid, msg);
     }
 };
 
@@ -644,7 +657,9 @@ void cmp_raw(Reporter const& rp, std::string const& sig, Json const& j, OrangeIn
                         }
                         else
                         {
-                            if (!raw_logic(jv.at("logic").get<std::string>(), logic))
+                            // writer: "logic" is omitted for an empty logic vector
+                            if (jv.contains("logic")
+                                && !raw_logic(jv.at("logic").get<std::string>(), logic))
                                 rp.fail(sig + ":logic", w + ": unexpected character in logic");
                             bb = raw_bbox(jv);
                         }
@@ -1165,6 +1180,66 @@ void add_solid_programs(std::vector<Program>& out, bool thorough)
 #endif
 
 //---------------------------------------------------------------------------//
+// (e) file-name entry points: OrangeParams(std::string const&) -> input_from_file ->
+// input_from_json.  The text written for `a` is stored as <tmp>/<name>.org.json; geometry built
+// from "<name>.org.json" and - with Geant4 conversion disabled in this build - from
+// "<name>.gdml" (documented fallback: the suffix is replaced by .org.json) must navigate
+// exactly like the geometry built from the in-memory input.
+//---------------------------------------------------------------------------//
+void check_file_entry(vf::Run& R, Program const& prog, OrangeInput const& a, OrangeParams const& pa,
+                      RaySet const& rs)
+{
+    namespace fs = std::filesystem;
+    Reporter rp{&R, prog.id, "file-entry/"};
+    char const* tmp = getenv("TMPDIR");
+    fs::path dir = fs::path(tmp && *tmp ? tmp : "/tmp")
+                   / fmt("c19_%ld_%016llx", long(getpid()), (unsigned long long)vf::hash_str(prog.id));
+    std::error_code ec;
+    fs::create_directories(dir, ec);
+    // a base name with dots and a "json" inside, so that suffix arithmetic matters
+    fs::path const base = dir / "geo.v1.json-like";
+    std::string const json_name = base.string() + ".org.json";
+    std::string const gdml_name = base.string() + ".gdml";
+    {
+        std::ofstream f(json_name);
+        f << a;  // operator<< (dump(0))
+        if (!f)
+        {
+            R.harness_error("cannot write " + json_name);
+            return;
+        }
+    }
+    R.count("file_entry_programs");
+    for (std::string const& name : {json_name, gdml_name})
+    {
+        bool const gdml = (name == gdml_name);
+        if (gdml && CELERITAS_USE_GEANT4)
+        {
+            R.tag("file-entry:gdml-fallback-not-applicable(geant4 enabled)");
+            continue;
+        }
+        std::unique_ptr<OrangeParams> pf;
+        try
+        {
+            pf = std::make_unique<OrangeParams>(name);
+        }
+        catch (std::exception const& e)
+        {
+            rp.fail(gdml ? "throws(gdml-name)" : "throws(json-name)",
+                    fmt("OrangeParams(\"%s\") threw although %s exists and OrangeParams(input) "
+                        "succeeds: %.400s", name.c_str(), json_name.c_str(), e.what()));
+            continue;
+        }
+        R.tag(gdml ? "file-entry:gdml-name-fallback" : "file-entry:json-name");
+        NavStats st;
+        uint64_t oh = 0;
+        nav_compare(rp, pa, *pf, rs, st, oh);
+        R.count("file_entry_rays", st.rays);
+    }
+    fs::remove_all(dir, ec);
+}
+
+//---------------------------------------------------------------------------//
 void run_program(vf::Run& R, Program const& prog, RaySet const& rs_default, RaySet const& rs_small)
 {
     Reporter rp{&R, prog.id};
@@ -1195,6 +1270,15 @@ void run_program(vf::Run& R, Program const& prog, RaySet const& rs_default, RayS
     }
     catch (std::exception const& e)
     {
+        if (family == "file" || family == "legacy")
+        {
+            // these inputs are produced by the READER under test from a text that is valid by
+            // construction (bundled with the code / written in the documented legacy spellings)
+            R.count("evaluations");
+            R.count("programs:" + family);
+            rp.fail("reader:throws", fmt("from_json refused a valid text: %.600s", e.what()));
+            return;
+        }
         // The construction API refused this combination (C09's domain, not ours)
         R.count("programs_not_constructible");
         R.tag("skip:" + family + ":construction-threw");
@@ -1273,6 +1357,15 @@ void run_program(vf::Run& R, Program const& prog, RaySet const& rs_default, RayS
         cmp_raw(rp, "reader", jf, a);
         R.count("raw_decodes");
     }
+    if (!prog.source_text.empty())
+    {
+        // (d) literal legacy text: same independent decoding
+        Json jf = Json::parse(prog.source_text, nullptr, false);
+        if (jf.is_discarded())
+            R.harness_error("cannot parse the literal text of " + prog.id);
+        cmp_raw(rp, "reader", jf, a);
+        R.count("raw_decodes");
+    }
 
     // (a) + (b)
     std::string s1, s2;
@@ -1310,8 +1403,24 @@ void run_program(vf::Run& R, Program const& prog, RaySet const& rs_default, RayS
     }
     catch (std::exception const& e)
     {
-        rp.fail("roundtrip:throws",
-                fmt("writing/re-reading the input threw: %.600s", e.what()));
+        // A volume with EMPTY logic (valid through its implicit_vol flag; the writer omits the
+        // "logic" key for it) that the reader then cannot find: its own signature, so that any
+        // other exception on the round trip stays distinguishable
+        bool empty_logic = false;
+        for (auto const& vu : a.universes)
+            if (auto const* u = std::get_if<UnitInput>(&vu))
+                for (auto const& v : u->volumes)
+                    empty_logic = empty_logic || (v.logic.empty() && v.zorder != ZOrder::background);
+        bool const key_missing = dynamic_cast<nlohmann::json::out_of_range const*>(&e)
+                                 && std::string(e.what()).find("'logic'") != std::string::npos;
+        if (empty_logic && key_missing && !s1.empty())
+            rp.fail("roundtrip:empty-logic-volume-not-readable",
+                    fmt("a VolumeInput with empty logic and flags & implicit_vol (valid by "
+                        "VolumeInput::operator bool) is written without a \"logic\" key, and "
+                        "from_json(VolumeInput) then throws: %.300s", e.what()));
+        else
+            rp.fail("roundtrip:throws",
+                    fmt("writing/re-reading the input threw: %.600s", e.what()));
         return;
     }
     cmp_input(rp, a, b, false);
@@ -1423,6 +1532,8 @@ void run_program(vf::Run& R, Program const& prog, RaySet const& rs_default, RayS
     uint64_t oh = 0;
     if (nav_compare(rp, *pa, *pb, rs, st, oh))
         R.outcome(oh);
+    if (prog.file_entry)
+        check_file_entry(R, prog, a, *pa, rs_small);
     R.count("nav_programs");
     R.count("nav_rays", st.rays);
     R.count("nav_crossings", st.crossings);
@@ -1458,6 +1569,7 @@ int main(int argc, char** argv)
     add_array_programs(programs, thorough);
     add_lattice_programs(programs, thorough);
     add_extreme_programs(programs);
+    add_legacy_programs(programs);
     add_builder_programs(programs, thorough);
 #ifdef C19_HAVE_SOLID_PROGRAMS
     add_solid_programs(programs, thorough);
